@@ -25,14 +25,16 @@ def thermo(pkg):
         # same chemicals at the same positions as P, other models (another enthalpy / entropy datum for ethanol)
         eth = tmo.Chemical('Ethanol', phase_ref='g', cache=False)
         _thermo['P2'] = tmo.Thermo(tmo.Chemicals([tmo.Chemical('Water', cache=False), eth, tmo.Chemical('Methanol', cache=False)]), cache=False)
+        # the SAME chemicals object as P with another mixture model (Peng-Robinson departure functions)
+        _thermo['P3'] = tmo.Thermo(_thermo['P'].chemicals, mixture=tmo.PRMixture.from_chemicals(_thermo['P'].chemicals), cache=False)
     return _thermo[pkg]
 
 
-PKG_CHEMS = {'P': [1, 2, 3], 'Q': [1, 2, 3], 'R': [1, 2], 'P2': [1, 2, 3]}
+PKG_CHEMS = {'P': [1, 2, 3], 'Q': [1, 2, 3], 'R': [1, 2], 'P2': [1, 2, 3], 'P3': [1, 2, 3]}
 
 UNIVERSES = {
-    'mc3': dict(names=['a', 'b', 'c'], pkg={'a': 'P', 'b': 'P', 'c': 'Q'}, nc=2, pkgs={'P': [1, 2], 'Q': [1, 2], 'P2': [1, 2]}),
-    'mc2': dict(names=['a', 'b'], pkg={'a': 'P', 'b': 'P'}, nc=2, pkgs={'P': [1, 2], 'Q': [1, 2], 'P2': [1, 2]}),
+    'mc3': dict(names=['a', 'b', 'c'], pkg={'a': 'P', 'b': 'P', 'c': 'Q'}, nc=2, pkgs={'P': [1, 2], 'Q': [1, 2], 'P2': [1, 2], 'P3': [1, 2]}),
+    'mc2': dict(names=['a', 'b'], pkg={'a': 'P', 'b': 'P'}, nc=2, pkgs={'P': [1, 2], 'Q': [1, 2], 'P2': [1, 2], 'P3': [1, 2]}),
     'big': dict(names=['a', 'b', 'c', 'd', 'e'], pkg={'a': 'P', 'b': 'P', 'c': 'Q', 'd': 'R', 'e': 'P'}, nc=3,
                 pkgs=PKG_CHEMS),
 }
